@@ -101,8 +101,8 @@ EPOCH = 1000000000
 # (member order, SOURCE_DATE_EPOCH, upto, pages all|summary, --sidebar-expand-depth=2, explore listing permutations)
 DEFAULT_VARIANT = ("alphabetical", EPOCH, 9, "all", False, True)
 VARIANTS = {"quick": [DEFAULT_VARIANT, ("source", 0, 1, "all", True, True), ("alphabetical", EPOCH, 1, "summary", False, False)],
-            "thorough": [DEFAULT_VARIANT, ("source", 0, 2, "all", True, True), ("source", EPOCH, 1, "all", False, True),
-                         ("alphabetical", 0, 1, "all", True, True), ("alphabetical", EPOCH, 2, "summary", False, True)]}
+            "thorough": [DEFAULT_VARIANT, ("source", 0, 1, "all", True, True), ("source", EPOCH, 1, "all", False, True),
+                         ("alphabetical", 0, 1, "all", True, True), ("alphabetical", EPOCH, 2, "summary", False, False)]}
 FIXED_PAGES = {"index.html": [0, 0], "moduleIndex.html": [0, 1], "classIndex.html": [0, 2], "nameIndex.html": [0, 3],
                "undoccedSummary.html": [0, 4], "all-documents.html": [0, 5]}
 
